@@ -387,11 +387,71 @@ struct ScaledMixed {
     static constexpr int Emin = EL < ER ? EL : ER;
     using SL = cnl::scaled_integer<LRep, cnl::power<EL>>;
     using SR = cnl::scaled_integer<RRep, cnl::power<ER>>;
-    static constexpr int n_ops = 11;  // + - & | ^ += -= &= |= ^= (and one slot for ==/< family)
+    static constexpr int n_ops = 17;  // + - & | ^ += -= &= |= ^=, one slot for the ==/< family, then * / % *= /= %=
     static char const* name(int op)
     {
-        static char const* n[] = {"+", "-", "&", "|", "^", "+=", "-=", "&=", "|=", "^=", "cmp"};
+        static char const* n[] = {"+", "-", "&", "|", "^", "+=", "-=", "&=", "|=", "^=", "cmp", "*", "/", "%", "*=", "/=", "%="};
         return n[op];
+    }
+    // * / %: the hand-written code operates on the reps as they are (no alignment): a * b at exponent EL + ER, a / b at EL - ER,
+    // a % b at EL; the compound forms convert the result back to x's exponent and type (shift, truncation toward zero, narrowing)
+    template<int K>
+    static void check_muldiv(int op, LRep a, RRep b, Outcome& o)
+    {
+        using Res = decltype(K == 0 ? a * b : K == 1 ? a / b : a % b);
+        mpz_class za = to_mpz(a), zb = to_mpz(b), zr;
+        if (K != 0 && b == 0) return o.discard("zero-divisor");
+        if (!fits<Res>(za) || !fits<Res>(zb)) return o.discard("builtin-conversion-changes-value");
+        if (K == 0) zr = za * zb;
+        if (K == 1) mpz_tdiv_q(zr.get_mpz_t(), za.get_mpz_t(), zb.get_mpz_t());
+        if (K == 2) mpz_tdiv_r(zr.get_mpz_t(), za.get_mpz_t(), zb.get_mpz_t());
+        if (is_signed_int_v<Res> && (!fits<Res>(zr) || (K != 0 && za == zmin<Res>() && zb == -1))) return o.discard("builtin-undefined");
+        zr = to_mpz(wrap_to<Res>(zr));
+        constexpr int res_exp = K == 0 ? EL + ER : K == 1 ? EL - ER : EL;
+        bool const compound = op >= 14;
+        mpz_class got, want = zr;
+        int got_exp = 0, want_exp = res_exp;
+        if (compound) {
+            int sh = res_exp - EL;
+            mpz_class q;
+            if (sh >= 0) {
+                q = zr << sh;
+                if (!fits<Res>(q) || (zr < 0 && sh > 0)) return o.discard("builtin-undefined");
+            } else {
+                if (-sh >= bits_v<Res> - (is_signed_int_v<Res> ? 1 : 0)) return o.discard("shift-not-less-than-digits");
+                mpz_tdiv_q_2exp(q.get_mpz_t(), zr.get_mpz_t(), static_cast<unsigned long>(-sh));
+            }
+            want = to_mpz(wrap_to<LRep>(q));
+            want_exp = EL;
+        }
+        bool ok = guard(o, [&] {
+            SL x = cnl::_impl::from_rep<SL>(a);
+            SR y = cnl::_impl::from_rep<SR>(b);
+            if (!compound) {
+                auto r = [&] {
+                    if constexpr (K == 0) return x * y;
+                    if constexpr (K == 1) return x / y;
+                    if constexpr (K == 2) return x % y;
+                }();
+                static_assert(std::is_same_v<std::remove_cvref_t<decltype(cnl::unwrap(r))>, Res>, "result representation differs from the built-in expression's");
+                got = to_mpz(cnl::unwrap(r));
+                got_exp = scaled_info<std::remove_cvref_t<decltype(r)>>::exponent;
+            } else {
+                if constexpr (K == 0) x *= y;
+                if constexpr (K == 1) x /= y;
+                if constexpr (K == 2) x %= y;
+                got = to_mpz(cnl::unwrap(x));
+                got_exp = EL;
+            }
+        });
+        if (!ok) {
+            o.fclass = std::string("mixed") + name(op) + "/" + o.fclass;
+            return;
+        }
+        if (got != want || got_exp != want_exp)
+            return o.fail(std::string("mixed") + name(op) + "/value-mismatch",
+                          "expected " + zstr(want) + " x 2^" + std::to_string(want_exp) + " got " + zstr(got) + " x 2^" + std::to_string(got_exp));
+        o.pass(a != 0 && b != 0, name(op));
     }
     template<int K, class A, class B>
     static auto apply(A const& a, B const& b)
@@ -478,6 +538,12 @@ struct ScaledMixed {
             for (int i = 0; i < 6; ++i)
                 if (e[i] != g[i]) return o.fail("mixedcmp/value-mismatch", "comparison " + std::to_string(i));
             return o.pass(a != 0 && b != 0, "cmp");
+        }
+        if (op >= 11) {
+            int k3 = (op - 11) % 3;
+            [&]<int... I>(std::integer_sequence<int, I...>) { ((k3 == I ? check_muldiv<I>(op, a, b, o) : void()), ...); }
+            (std::make_integer_sequence<int, 3>{});
+            return;
         }
         int k = op % 5;
         [&]<int... I>(std::integer_sequence<int, I...>) { ((k == I ? check_k<I>(op, a, b, o) : void()), ...); }
